@@ -64,6 +64,33 @@ Lemma link_gzip_calls : C19_Gen.gzip_calls =
    "io.Copy"; "return"; "w.Close"; "return"; "os.Remove"; "return"]%string.
 Proof. reflexivity. Qed.
 
+(* the configuration path: createOutput passes the options to the constructors in parameter order
+   (filename, delimiter, days, maxSize, maxBackups, gzip) / (filename, delimiter, days, gzip), and the same
+   gzip flag to NewLogger; Model.rule_of_options is that record copy *)
+Lemma link_size_rule_args : C19_Gen.size_rule_args =
+  ["path"; "backupFileDelimiter"; "options.keepDays"; "options.maxSize"; "options.maxBackups"; "options.gzipEnabled"]%string.
+Proof. reflexivity. Qed.
+
+Lemma link_daily_rule_args : C19_Gen.daily_rule_args =
+  ["path"; "backupFileDelimiter"; "options.keepDays"; "options.gzipEnabled"]%string.
+Proof. reflexivity. Qed.
+
+Lemma link_new_logger_args : C19_Gen.new_logger_args = ["path"; "NewSizeLimitRotateRule"; "options.gzipEnabled"]%string.
+Proof. reflexivity. Qed.
+
+Lemma link_backupFileDelimiter : bytes_of_string C19_Gen.backupFileDelimiter = backup_file_delimiter.
+Proof. reflexivity. Qed.
+
+Lemma link_accessFilename : C19_Gen.accessFilename = "access.log"%string.
+Proof. reflexivity. Qed.
+
+(* init: backup name first, then stat; a missing file is created, an existing one opened (O_APPEND) and
+   its size taken; CloseOnExec on either *)
+Lemma link_init_calls : C19_Gen.init_calls =
+  ["l.rule.BackupFilename"; "os.Stat"; "path.Dir"; "os.Stat"; "os.MkdirAll"; "return"; "os.Create"; "return";
+   "os.OpenFile"; "return"; "fileInfo.Size"; "fs.CloseOnExec"; "return"]%string.
+Proof. reflexivity. Qed.
+
 (* ---- soundness of the executable tests used by Exec.spec_ok *)
 Lemma is_matched_sound c n :
   is_matched c n = true <-> exists mid, n = bpre c ++ mid ++ bsuf c ++ gz_opt c.
